@@ -43,69 +43,93 @@ theorem bind_eq {α β : Type} (m : SM α) (f : α → SM β) (s : Scanner) :
   obtain ⟨r, s'⟩ := p
   cases r <;> rfl
 
-/-- what a result `p` of an action started in `s` must satisfy -/
-structure SafeRes {α : Type} (s : Scanner) (p : Except Err α × Scanner) : Prop where
+/-- what a result `p` of an action started in `s` must satisfy; `Q` is a postcondition
+on the value returned -/
+structure SafeRes {α : Type} (Q : α → Prop) (s : Scanner) (p : Except Err α × Scanner) : Prop where
   eexec : p.2.eexec = s.eexec
   reg : p.2.regurgitate = s.regurgitate
   err : ErrOK p.2
   res : ∀ e, p.1 = .error e → NPE e
+  val : ∀ a, p.1 = .ok a → Q a
 
-def SafeAt {α : Type} (m : SM α) (s : Scanner) : Prop := SafeRes s (m s)
+def SafeAt {α : Type} (m : SM α) (Q : α → Prop) (s : Scanner) : Prop := SafeRes Q s (m s)
 
-/-- the action leaves `eexec`/`regurgitate` alone, keeps the sticky error harmless and
-does not fail with a panic -/
-structure Safe {α : Type} (m : SM α) : Prop where
-  run : ∀ s, ErrOK s → SafeAt m s
+/-- the action leaves `eexec`/`regurgitate` alone, keeps the sticky error harmless, does
+not fail with a panic, and its value satisfies `Q` -/
+structure SafeP {α : Type} (m : SM α) (Q : α → Prop) : Prop where
+  run : ∀ s, ErrOK s → SafeAt m Q s
 
-theorem Safe.pure {α : Type} (a : α) : Safe (pure a : SM α) :=
-  ⟨fun s h => ⟨rfl, rfl, h, by intro e he; cases he⟩⟩
+abbrev Safe {α : Type} (m : SM α) : Prop := SafeP m (fun _ => True)
 
-theorem Safe.getS : Safe Scan.getS :=
-  ⟨fun s h => ⟨rfl, rfl, h, by intro e he; cases he⟩⟩
+/-- a captured result whose error (if any) is harmless -/
+def ResOK {α : Type} (r : Except Err α) : Prop := ∀ e, r = .error e → NPE e
 
-theorem Safe.fail {α : Type} (e : Err) (he : NPE e) : Safe (Scan.fail e : SM α) :=
-  ⟨fun s h => ⟨rfl, rfl, h, by intro e' h'; cases h'; exact he⟩⟩
+theorem SafeP.pure {α : Type} {Q : α → Prop} (a : α) (h : Q a) : SafeP (pure a : SM α) Q :=
+  ⟨fun s hs => ⟨rfl, rfl, hs, (by intro e he; cases he), by intro b hb; cases hb; exact h⟩⟩
 
-theorem Safe.modS (f : Scanner → Scanner)
+theorem SafeP.pureT {α : Type} (a : α) : SafeP (pure a : SM α) (fun _ => True) := SafeP.pure a trivial
+
+theorem SafeP.ite {α : Type} {Q : α → Prop} {c : Prop} [Decidable c] {a b : SM α}
+    (ha : SafeP a Q) (hb : SafeP b Q) : SafeP (if c then a else b) Q := by
+  split
+  · exact ha
+  · exact hb
+
+theorem SafeP.getS : SafeP Scan.getS (fun _ => True) :=
+  ⟨fun s h => ⟨rfl, rfl, h, (by intro e he; cases he), fun _ _ => trivial⟩⟩
+
+theorem SafeP.fail {α : Type} {Q : α → Prop} (e : Err) (he : NPE e) : SafeP (Scan.fail e : SM α) Q :=
+  ⟨fun s h => ⟨rfl, rfl, h, (by intro e' h'; cases h'; exact he), by intro a ha; cases ha⟩⟩
+
+theorem SafeP.modS (f : Scanner → Scanner)
     (hf : ∀ s, (f s).eexec = s.eexec ∧ (f s).regurgitate = s.regurgitate ∧ (f s).err = s.err) :
-    Safe (Scan.modS f) :=
-  ⟨fun s h => ⟨(hf s).1, (hf s).2.1, by intro e he; exact h e (by rw [← (hf s).2.2]; exact he),
-    by intro e he; cases he⟩⟩
+    SafeP (Scan.modS f) (fun _ => True) :=
+  ⟨fun s h => ⟨(hf s).1, (hf s).2.1, (by intro e he; exact h e (by rw [← (hf s).2.2]; exact he)),
+    (by intro e he; cases he), fun _ _ => trivial⟩⟩
 
-theorem SafeAt.bind {α β : Type} {m : SM α} {f : α → SM β} {s : Scanner}
-    (hm : SafeAt m s) (hf : ∀ a s', m s = (.ok a, s') → SafeAt (f a) s') : SafeAt (m >>= f) s := by
+theorem SafeAt.bind {α β : Type} {m : SM α} {f : α → SM β} {s : Scanner} {Q : α → Prop} {R : β → Prop}
+    (hm : SafeAt m Q s) (hf : ∀ a s', m s = (.ok a, s') → SafeAt (f a) R s') : SafeAt (m >>= f) R s := by
   have e := bind_eq m f s
   unfold SafeAt at hm hf ⊢
   rw [e]
   generalize hp : m s = p at hm hf
   obtain ⟨r, s'⟩ := p
-  obtain ⟨h1, h2, h3, h4⟩ := hm
+  obtain ⟨h1, h2, h3, h4, h5⟩ := hm
   cases r with
-  | error x => dsimp only; exact ⟨h1, h2, h3, by intro e he; cases he; exact h4 _ rfl⟩
+  | error x =>
+    dsimp only
+    exact ⟨h1, h2, h3, (by intro e he; cases he; exact h4 _ rfl), by intro a ha; cases ha⟩
   | ok a =>
-    obtain ⟨g1, g2, g3, g4⟩ := hf a s' rfl
+    obtain ⟨g1, g2, g3, g4, g5⟩ := hf a s' rfl
     dsimp only at h1 h2 h3 ⊢
-    exact ⟨by rw [g1, h1], by rw [g2, h2], g3, g4⟩
+    exact ⟨by rw [g1, h1], by rw [g2, h2], g3, g4, g5⟩
 
-theorem Safe.bind {α β : Type} {m : SM α} {f : α → SM β} (hm : Safe m) (hf : ∀ a, Safe (f a)) :
-    Safe (m >>= f) := by
+theorem SafeP.bind {α β : Type} {m : SM α} {f : α → SM β} {Q : α → Prop} {R : β → Prop}
+    (hm : SafeP m Q) (hf : ∀ a, Q a → SafeP (f a) R) : SafeP (m >>= f) R := by
   refine ⟨fun s h => SafeAt.bind (hm.run s h) ?_⟩
   intro a s' e
-  have := (hm.run s h).err
-  rw [e] at this
-  exact (hf a).run s' this
+  have h3 := (hm.run s h).err
+  have h5 := (hm.run s h).val
+  rw [e] at h3 h5
+  exact (hf a (h5 a rfl)).run s' h3
 
-theorem Safe.attempt {α : Type} {m : SM α} (hm : Safe m) : Safe (Scan.attempt m) := by
+theorem SafeP.attempt {α : Type} {m : SM α} {Q : α → Prop} (hm : SafeP m Q) :
+    SafeP (Scan.attempt m) ResOK := by
   refine ⟨fun s h => ?_⟩
-  obtain ⟨h1, h2, h3, h4⟩ := hm.run s h
+  obtain ⟨h1, h2, h3, h4, h5⟩ := hm.run s h
   unfold SafeAt Scan.attempt
-  generalize m s = p at h1 h2 h3 h4
+  generalize m s = p at h1 h2 h3 h4 h5
   obtain ⟨r, s'⟩ := p
-  exact ⟨h1, h2, h3, by intro e he; cases he⟩
+  exact ⟨h1, h2, h3, (by intro e he; cases he), by intro a ha; cases ha; exact h4⟩
+
+theorem SafeP.weaken {α : Type} {m : SM α} {Q R : α → Prop} (hm : SafeP m Q) (h : ∀ a, Q a → R a) :
+    SafeP m R :=
+  ⟨fun s hs => ⟨(hm.run s hs).eexec, (hm.run s hs).reg, (hm.run s hs).err, (hm.run s hs).res,
+    fun a ha => h a ((hm.run s hs).val a ha)⟩⟩
 
 /-- `getS` followed by a continuation that may use what it read -/
-theorem SafeAt.getS_bind {β : Type} {f : Scanner → SM β} {s : Scanner} (hf : SafeAt (f s) s) :
-    SafeAt (Scan.getS >>= f) s := by
+theorem SafeAt.getS_bind {β : Type} {f : Scanner → SM β} {s : Scanner} {R : β → Prop} (hf : SafeAt (f s) R s) :
+    SafeAt (Scan.getS >>= f) R s := by
   have e : (Scan.getS >>= f) s = f s s := bind_eq Scan.getS f s
   unfold SafeAt at hf ⊢
   rw [e]; exact hf
@@ -114,20 +138,35 @@ theorem SafeAt.getS_bind {β : Type} {f : Scanner → SM β} {s : Scanner} (hf :
 macro "frame_fun" : tactic =>
   `(tactic| (intro s; dsimp only; (repeat' split) <;> exact ⟨rfl, rfl, rfl⟩))
 
+/-- tries the lemmas proved so far (extended by `macro_rules` after each lemma) -/
+syntax "safe_lemma" : tactic
+macro_rules | `(tactic| safe_lemma) => `(tactic| fail "no lemma applies")
+
 /-- decompose an action built from `bind`, `pure`, `attempt`, `getS`, `modS`, `fail`,
 `if` and `match` -/
-macro "safe_auto" : tactic =>
+macro "safe_with" ih:ident : tactic =>
   `(tactic| repeat' (first
-    | exact Safe.pure _
-    | exact Safe.getS
-    | exact Safe.fail _ (by intro s; simp [Scan.syntaxErr])
-    | (apply Safe.modS; frame_fun)
-    | apply Safe.attempt
-    | apply Safe.bind
     | assumption
-    | apply_assumption
+    | apply $ih
+    | safe_lemma
+    | exact SafeP.pureT _
+    | exact SafeP.getS
+    | (refine SafeP.modS _ ?_; frame_fun)
+    | refine SafeP.attempt ?_
+    | refine SafeP.bind ?_ ?_
+    | (refine SafeP.fail _ ?_; first | (intro s; simp [Scan.syntaxErr]; done) | (apply_assumption; rfl))
+    | refine SafeP.ite ?_ ?_
     | intro _
-    | split))
+    | split
+    | dsimp only))
+
+macro "safe_auto" : tactic => `(tactic| (have trivialHyp : True := trivial; safe_with trivialHyp))
+
+/-- `Safe` for a function that recurses on its first (fuel or count) argument -/
+macro "safe_rec" f:ident : tactic =>
+  `(tactic| (intro fuel; induction fuel with
+    | zero => intros; unfold $f; safe_auto
+    | succ n ih => intros; unfold $f; safe_with ih))
 
 theorem safe_readByteRaw : Safe readByteRaw := by
   refine ⟨fun s h => ?_⟩
@@ -136,16 +175,16 @@ theorem safe_readByteRaw : Safe readByteRaw := by
   split
   · rename_i hc
     split
-    · exact ⟨rfl, rfl, h, by intro e he; cases he⟩
+    · exact ⟨rfl, rfl, h, (by intro e he; cases he), fun _ _ => trivial⟩
     · rename_i hp; simp [hp] at hc
   · split
     · rename_i e he
       split
-      · exact ⟨rfl, rfl, h, by intro e he; cases he⟩
-      · exact ⟨rfl, rfl, h, by intro e' he'; cases he'; exact h e he⟩
+      · exact ⟨rfl, rfl, h, (by intro e he; cases he), fun _ _ => trivial⟩
+      · exact ⟨rfl, rfl, h, (by intro e' he'; cases he'; exact h e he), fun _ _ => trivial⟩
     · split
-      · exact ⟨rfl, rfl, h, by intro e he; cases he⟩
-      · refine ⟨rfl, rfl, ?_, ?_⟩
+      · exact ⟨rfl, rfl, h, (by intro e he; cases he), fun _ _ => trivial⟩
+      · refine ⟨rfl, rfl, ?_, ?_, fun _ _ => trivial⟩
         · intro e he
           dsimp only at he
           cases he
@@ -158,14 +197,117 @@ theorem safe_readByteRaw : Safe readByteRaw := by
           · exact npe_eof
           · exact npe_io _
 
-theorem safe_readHexPair : ∀ fuel i out, Safe (readHexPair fuel i out) := by
-  intro fuel
-  induction fuel with
-  | zero => intro i out; unfold readHexPair; safe_auto
-  | succ n ih =>
-    intro i out
-    unfold readHexPair
-    have := safe_readByteRaw
-    safe_auto
+macro_rules | `(tactic| safe_lemma) => `(tactic| exact safe_readByteRaw)
+
+theorem safe_readHexPair : ∀ fuel i out, Safe (readHexPair fuel i out) := by safe_rec readHexPair
+macro_rules | `(tactic| safe_lemma) => `(tactic| apply safe_readHexPair)
+
+theorem safe_readByteEexec : Safe readByteEexec := by unfold readByteEexec; safe_auto
+macro_rules | `(tactic| safe_lemma) => `(tactic| exact safe_readByteEexec)
+
+theorem safe_readByte : Safe readByte := by
+  unfold readByte
+  apply SafeP.bind
+  · exact SafeP.getS
+  intro s _
+  split
+  · safe_lemma
+  apply SafeP.bind
+  · safe_lemma
+  intro b _
+  apply SafeP.bind
+  · exact SafeP.getS
+  intro s2 _
+  generalize Cipher.decStep s2.r b = q
+  obtain ⟨p, r'⟩ := q
+  dsimp only
+  safe_auto
+macro_rules | `(tactic| safe_lemma) => `(tactic| exact safe_readByte)
+
+theorem safe_next : Safe next := by
+  unfold next
+  safe_auto
+  rename_i s hc _ hp
+  simp [hp] at hc
+macro_rules | `(tactic| safe_lemma) => `(tactic| exact safe_next)
+
+theorem safe_peek : Safe peek := by unfold peek; safe_auto
+macro_rules | `(tactic| safe_lemma) => `(tactic| exact safe_peek)
+
+theorem safe_peekN (n : Nat) : ∀ fuel, Safe (peekN n fuel) := by safe_rec peekN
+macro_rules | `(tactic| safe_lemma) => `(tactic| apply safe_peekN)
+
+theorem safe_lookingAt (pat : List UInt8) : Safe (lookingAt pat) := by unfold lookingAt; safe_auto
+macro_rules | `(tactic| safe_lemma) => `(tactic| apply safe_lookingAt)
+
+theorem safe_skipByte : Safe skipByte := by unfold skipByte; safe_auto
+macro_rules | `(tactic| safe_lemma) => `(tactic| exact safe_skipByte)
+
+theorem safe_skipN : ∀ n, Safe (skipN n) := by safe_rec skipN
+macro_rules | `(tactic| safe_lemma) => `(tactic| apply safe_skipN)
+
+theorem safe_skipRequiredByte (b : UInt8) : Safe (skipRequiredByte b) := by unfold skipRequiredByte; safe_auto
+macro_rules | `(tactic| safe_lemma) => `(tactic| apply safe_skipRequiredByte)
+
+theorem safe_skipOptionalByte (b : UInt8) : Safe (skipOptionalByte b) := by unfold skipOptionalByte; safe_auto
+macro_rules | `(tactic| safe_lemma) => `(tactic| apply safe_skipOptionalByte)
+
+theorem safe_skipToEOL : ∀ fuel, Safe (skipToEOL fuel) := by safe_rec skipToEOL
+macro_rules | `(tactic| safe_lemma) => `(tactic| apply safe_skipToEOL)
+
+theorem safe_skipComment : Safe skipComment := by unfold skipComment; safe_auto
+macro_rules | `(tactic| safe_lemma) => `(tactic| exact safe_skipComment)
+
+theorem safe_readCommentKey : ∀ fuel acc, Safe (readCommentKey fuel acc) := by safe_rec readCommentKey
+macro_rules | `(tactic| safe_lemma) => `(tactic| apply safe_readCommentKey)
+
+theorem safe_skipBlanks : ∀ fuel, Safe (skipBlanks fuel) := by safe_rec skipBlanks
+macro_rules | `(tactic| safe_lemma) => `(tactic| apply safe_skipBlanks)
+
+theorem safe_readLine : ∀ fuel acc, Safe (readLine fuel acc) := by safe_rec readLine
+macro_rules | `(tactic| safe_lemma) => `(tactic| apply safe_readLine)
+
+theorem safe_readCommentValue : ∀ fuel acc, Safe (readCommentValue fuel acc) := by safe_rec readCommentValue
+macro_rules | `(tactic| safe_lemma) => `(tactic| apply safe_readCommentValue)
+
+theorem safe_readStructuredComment : Safe readStructuredComment := by unfold readStructuredComment; safe_auto
+macro_rules | `(tactic| safe_lemma) => `(tactic| exact safe_readStructuredComment)
+
+theorem safe_skipWhiteSpace : ∀ fuel, Safe (skipWhiteSpace fuel) := by safe_rec skipWhiteSpace
+macro_rules | `(tactic| safe_lemma) => `(tactic| apply safe_skipWhiteSpace)
+
+theorem safe_readOctal : ∀ n oct, Safe (readOctal n oct) := by safe_rec readOctal
+macro_rules | `(tactic| safe_lemma) => `(tactic| apply safe_readOctal)
+
+theorem safe_readStringBody : ∀ fuel res level ign, Safe (readStringBody fuel res level ign) := by
+  safe_rec readStringBody
+macro_rules | `(tactic| safe_lemma) => `(tactic| apply safe_readStringBody)
+
+theorem safe_readString : Safe readString := by unfold readString; safe_auto
+macro_rules | `(tactic| safe_lemma) => `(tactic| exact safe_readString)
+
+theorem safe_readHexBody : ∀ fuel res first hi, Safe (readHexBody fuel res first hi) := by safe_rec readHexBody
+macro_rules | `(tactic| safe_lemma) => `(tactic| apply safe_readHexBody)
+
+theorem safe_readHexString : Safe readHexString := by unfold readHexString; safe_auto
+macro_rules | `(tactic| safe_lemma) => `(tactic| exact safe_readHexString)
+
+theorem safe_readA85Body : ∀ fuel res pos val, Safe (readA85Body fuel res pos val) := by safe_rec readA85Body
+macro_rules | `(tactic| safe_lemma) => `(tactic| apply safe_readA85Body)
+
+theorem safe_readBase85String : Safe readBase85String := by unfold readBase85String; safe_auto
+macro_rules | `(tactic| safe_lemma) => `(tactic| exact safe_readBase85String)
+
+theorem safe_readRegular : ∀ fuel acc, Safe (readRegular fuel acc) := by safe_rec readRegular
+macro_rules | `(tactic| safe_lemma) => `(tactic| apply safe_readRegular)
+
+theorem safe_skipEexecSpace : ∀ fuel, Safe (skipEexecSpace fuel) := by safe_rec skipEexecSpace
+macro_rules | `(tactic| safe_lemma) => `(tactic| apply safe_skipEexecSpace)
+
+theorem safe_skipIV : ∀ n, Safe (skipIV n) := by safe_rec skipIV
+macro_rules | `(tactic| safe_lemma) => `(tactic| apply safe_skipIV)
+
+theorem safe_readN : ∀ n acc, Safe (readN n acc) := by safe_rec readN
+macro_rules | `(tactic| safe_lemma) => `(tactic| apply safe_readN)
 
 end PsVerif.Proofs.WFState
